@@ -22,18 +22,32 @@ def sample_cases(obs, n=4, pred=lambda o: True):
     return pool[:n]
 
 
-def check_C01(tier):
-    t0 = time.time()
-    cases = L.family_cases(tier)
+def lang_product(tier):
+    """the C01 product exploration (shared by C01 and C04): cached per repo tree, harness and spec"""
+    cases = L.family_cases(tier, L.TIERS[tier] + [("mini", 6 if tier == "quick" else 7)])
     obs_path = L.observe(cases, "dfa", "lang-" + tier)
-    obs = L.read_ndjson(obs_path)
-    by_id = {o["id"]: o for o in obs}
+    cpath = obs_path + ".product-%s.json" % C.spec_hash()
+    if os.path.exists(cpath):
+        with open(cpath) as f:
+            d = json.load(f)
+        return cases, obs_path, d["recs"], d["stats"]
     out, stats = C.tlc("LangCheck.tla", "LangCheck_C01.cfg", env={"OBS": obs_path}, timeout=3000,
                        java_opts=["-Xmx12g"])
     if not stats["ok"]:
         C.log(stats.get("tail", ""))
         raise C.ToolError("TLC did not complete on LangCheck_C01")
     recs = C.tlc_records(out)
+    with open(cpath + ".tmp", "w") as f:
+        json.dump({"recs": recs, "stats": stats}, f)
+    os.replace(cpath + ".tmp", cpath)
+    return cases, obs_path, recs, stats
+
+
+def check_C01(tier):
+    t0 = time.time()
+    cases, obs_path, recs, stats = lang_product(tier)
+    obs = L.read_ndjson(obs_path)
+    by_id = {o["id"]: o for o in obs}
     v = C.Verdict("C01")
     witnesses = [r for r in recs if r["t"] == "W"]
     noparse = [r for r in recs if r["t"] == "NOPARSE"]
@@ -76,7 +90,7 @@ def check_C01(tier):
         "traces_validated_against_impl": n_replayed,
         "samples": samples,
         "evaluations": len(cases), "distinct_nontrivial": nontrivial,
-        "rule": "cases = all balanced lexeme sequences of the families %s; non-trivial = built by wax, read by the documented syntax, and the minimised automaton over Sigma has more than 2 states" % (L.TIERS[tier],),
+        "rule": "cases = all balanced lexeme sequences of the families %s and mini; non-trivial = built by wax, read by the documented syntax, and the minimised automaton over Sigma has more than 2 states" % (L.TIERS[tier],),
         "expressions_built": len(built), "expressions_in_product": len(usable),
         "automata_too_large_for_product": len(built) - len(usable),
         "built_but_not_in_documented_syntax": len(noparse),
@@ -581,10 +595,156 @@ def check_C18(tier):
     return rc
 
 
+def check_C04(tier):
+    t0 = time.time()
+    cases, obs_path, recs, stats = lang_product(tier)
+    obs = L.read_ndjson(obs_path)
+    by_id = {o["id"]: o for o in obs}
+    # accepted witnesses, at most `cap` per expression (shortest first), replayed through the real matched()
+    cap = 6 if tier == "quick" else 20
+    per = collections.defaultdict(list)
+    for w in recs:
+        if w["t"] == "W" and w["im"]:
+            per[w["id"]].append(w["path"])
+    lines = []
+    for i, paths in per.items():
+        paths.sort(key=lambda p: (len(p), p))
+        # short and long witnesses both: the first half shortest, the rest longest
+        pick = paths[: cap // 2] + paths[len(paths) - (cap - cap // 2):] if len(paths) > cap else paths
+        pick = [list(x) for x in sorted({tuple(p) for p in pick})]
+        lines.append(json.dumps({"id": i, "e": by_id[i]["e"], "paths": pick}, separators=(",", ":")))
+    out = C.run_wv(["replay"], input_text="\n".join(lines) + "\n")
+    crecs = []
+    v = C.Verdict("C04")
+    for line in out.splitlines():
+        r = json.loads(line)
+        o = by_id[r["id"]]
+        for x in r["rs"]:
+            if x["panic"]:
+                v.disagree({"t": "DISAGREE", "what": "panic", "id": r["id"], "site": x["panic"]}, "%r on %r panics: %s" % (L.expr_of(o), C.text(x["p"]), x["panic"]))
+                continue
+            if x["m"] != x["has"]:
+                v.disagree({"t": "DISAGREE", "what": "matched_vs_is_match", "id": r["id"]}, "%r on %r: matched().is_some() = %s but is_match = %s" % (L.expr_of(o), C.text(x["p"]), x["has"], x["m"]))
+            if x["has"]:
+                crecs.append({"id": r["id"], "e": o["e"], "path": x["p"], "caps": x["caps"], "owned_eq": x["owned_eq"]})
+    d = os.path.dirname(obs_path)
+    cap_path = os.path.join(d, "captures-%s.ndjson" % tier)
+    L.write_ndjson(cap_path, crecs)
+    tout, tstats = C.tlc("CaptureCheck.tla", "CaptureCheck.cfg", env={"OBS": cap_path}, timeout=3000, java_opts=["-Xmx12g"])
+    if not tstats["ok"]:
+        C.log(tstats.get("tail", ""))
+        raise C.ToolError("TLC did not complete on CaptureCheck")
+    nd = 0
+    for r in C.tlc_records(tout):
+        if r["t"] != "DISAGREE":
+            continue
+        nd += 1
+        o = by_id[r["id"]]
+        caps = crecs[r["rec"] - 1]["caps"]
+        v.disagree(r, "%r on path %r captures %s: %s" % (L.expr_of(o), C.text(r["path"]), [C.text(c["s"]) if c["some"] else None for c in caps], r["what"]))
+    with_caps = [c for c in crecs if len(c["caps"]) > 2]
+    samples = [{"expression": L.expr_of(by_id[c["id"]]), "path": C.text(c["path"]), "captures": [C.text(x["s"]) if x["some"] else None for x in c["caps"]]}
+               for c in random.Random(C.SEED).sample(with_caps, min(6, len(with_caps)))]
+    rc = v.finish()
+    C.write_evidence("C04", tier, "model_checking", {
+        "states": tstats["distinct"], "transitions": tstats["generated"],
+        "traces_validated_against_impl": len(crecs),
+        "samples": samples,
+        "evaluations": len(crecs), "distinct_nontrivial": len({(c["id"], tuple(c["path"])) for c in with_caps}),
+        "rule": "records = (expression, accepted path) with the capture vector the real matched() returned for indices 0..n+1, borrowed and owned; paths = access paths of the product states of C01 that the code accepts (at most %d per expression, shortest and longest); non-trivial = the expression has at least one capturing token" % cap,
+        "expressions": len(per), "disagreements": nd, "known_findings_hit": sorted(v.findings),
+        "explanation": "TLC validates every recorded capture vector against GlobCapture!CaptureVerdict (existence of a segmentation of the path by the top-level tokens that explains the captures); this is validation on witness paths, not on all paths - captures are not a regular-language question",
+    }, time.time() - t0, len(v.violations), ["TLC", "paths are witnesses of product states over the family alphabets, tens per expression, not all paths",
+                                             "greediness is not checked (C04 does not state it)"])
+    return rc
+
+
+IDENTITY_STEPS = ["clone", "into_owned", "display_new", "from_str", "try_from"]
+ANY_STEPS = ["any_text", "any_compiled", "any_nested"]
+
+
+def check_C19(tier):
+    t0 = time.time()
+    import itertools
+    rnd = random.Random(C.SEED)
+    cases0 = L.family_cases(tier)
+    obs_path = L.observe(cases0, "dfa", "lang-" + tier) if False else None
+    # only expressions that are likely to build are worth a route; the harness skips the others
+    per_fam = 300 if tier == "quick" else 3000
+    picked = []
+    for fam, _n in L.TIERS[tier]:
+        pool = [c for c in cases0 if c["fam"] == fam]
+        rnd.shuffle(pool)
+        picked += pool[:per_fam * 4]
+    lines = []
+    for c in picked:
+        sigma = c["sigma"]
+        paths = [list(p) for k in range(0, 4) for p in itertools.product(sigma, repeat=k)]
+        if len(paths) > 24:
+            paths = paths[:8] + rnd.sample(paths[8:], 16)
+        # three routes per expression, one per kind of combinator at the end: every conversion once in a
+        # seeded order, and two seeded compositions of 2-4 conversions
+        steps = IDENTITY_STEPS[:]
+        rnd.shuffle(steps)
+        routes = [steps + ["any_text"],
+                  [rnd.choice(IDENTITY_STEPS) for _ in range(rnd.randint(2, 4))] + ["any_compiled"],
+                  [rnd.choice(IDENTITY_STEPS) for _ in range(rnd.randint(2, 4))] + ["any_nested"]]
+        lines.append(json.dumps({"id": c["id"], "e": c["e"], "sigma": sigma, "paths": paths, "routes": routes}, separators=(",", ":")))
+    out = C.run_wv(["lifecycle"], input_text="\n".join(lines) + "\n", timeout=3000)
+    routes = collections.OrderedDict()
+    for line in out.splitlines():
+        ev = json.loads(line)
+        routes.setdefault((ev["id"], ev["route"]), []).append({"ev": ev["ev"], "abs": ev["abs"]})
+    # keep the number of traces bounded: per_fam built expressions per family
+    by_case = collections.OrderedDict()
+    for (i, rt), evs in routes.items():
+        by_case.setdefault(i, []).append((rt, evs))
+    fam_of = {c["id"]: c["fam"] for c in picked}
+    count = collections.Counter()
+    recs = []
+    for i, rts in by_case.items():
+        if count[fam_of[i]] >= per_fam:
+            continue
+        count[fam_of[i]] += 1
+        for rt, evs in rts:
+            recs.append({"id": i, "route": rt, "events": evs})
+    d = C.cache_dir("obs", "%s-%s" % (C.repo_hash(), C.harness_hash()))
+    tpath = os.path.join(d, "lifecycle-%s.ndjson" % tier)
+    L.write_ndjson(tpath, recs)
+    tout, stats = C.tlc("Lifecycle.tla", "Lifecycle.cfg", env={"TRACE": tpath}, timeout=3000, java_opts=["-Xmx12g"])
+    if not stats["ok"]:
+        C.log(stats.get("tail", ""))
+        raise C.ToolError("TLC did not complete on Lifecycle")
+    by_id = {c["id"]: c for c in picked}
+    v = C.Verdict("C19")
+    done = 0
+    nd = 0
+    for r in C.tlc_records(tout):
+        if r["t"] == "DONE":
+            done += 1
+        elif r["t"] == "DISAGREE":
+            nd += 1
+            v.disagree(r, "%r: after %s (step %d of route %d): %s" % (C.text(by_id[r["id"]]["e"]), r["ev"], r["step"], r["route"], r["what"]))
+    if done != len(recs):
+        raise C.ToolError("trace validation consumed %d of %d routes" % (done, len(recs)))
+    samples = [{"expression": C.text(by_id[r["id"]]["e"]), "route": [e["ev"] for e in r["events"]]} for r in rnd.sample(recs, min(6, len(recs)))]
+    rc = v.finish()
+    C.write_evidence("C19", tier, "model_checking", {
+        "states": stats["distinct"], "transitions": stats["generated"],
+        "traces_validated_against_impl": len(recs),
+        "samples": samples,
+        "evaluations": sum(len(r["events"]) for r in recs), "distinct_nontrivial": len({r["id"] for r in recs}),
+        "rule": "traces = for up to %d built expressions per family %s: three routes: all five conversions (Clone, into_owned, Display+new, FromStr, TryFrom) in a seeded order then any of text, and two seeded compositions of 2-4 conversions then any of the compiled glob / a nested combinator; after each step the abstract value (minimised DFA over the alphabet = the language on all paths, all queries, capturing tokens, display, capture vectors borrowed/owned on 24 paths) is logged; non-trivial = distinct expressions" % (per_fam, [f for f, _ in L.TIERS[tier]]),
+        "disagreements": nd, "known_findings_hit": sorted(v.findings),
+        "explanation": "trace validation: every logged value must equal the effect of the named Lifecycle action on the previous value; all routes were consumed to their end",
+    }, time.time() - t0, len(v.violations), ["TLC", "equal minimised tables over the alphabet = equal languages (regex-automata DFA of the hooked pattern)", "captures are compared on 24 concrete paths per expression"])
+    return rc
+
+
 def depths_of(tier):
     return [10, 50, 100, 130, 300, 1000, 3000] + ([20000] if tier == "thorough" else [])
 
 
-CHECKS = {"C01": check_C01, "C05": check_C05, "C06": check_C06, "C07": check_C07, "C08": check_C08, "C17": check_C17, "C18": check_C18}
+CHECKS = {"C01": check_C01, "C04": check_C04, "C05": check_C05, "C06": check_C06, "C07": check_C07, "C08": check_C08, "C17": check_C17, "C18": check_C18, "C19": check_C19}
 for _p in QUERY:
     CHECKS[_p] = (lambda p: (lambda tier: query_check(p, tier)))(_p)
